@@ -267,6 +267,11 @@ def run_C04(run):
         if rx.compiles(a.text)[0]:
             descs[explore.h64(a.key())] = explore.desc(a)
     descs.update(res['frontier'])
+    extra = ["Indefinite('a')", "OneOrMore('a')", "Optional('a', False)", "Indefinite(AnyDigit())", "AtLeastAtMost('ab', 1, 2)", "AtLeast('a', 2)",
+             "AtMost('a', 2, False)", "Indefinite(Either('a', 'b'))", "OneOrMore(Capture('a'))", "Indefinite(Indefinite('a'))", "Exactly('a', 2)",
+             "Optional(Optional('a'))", "OneOrMore('ab', False)", "Indefinite(Group('ab'))"]
+    for a in dsl.safe_atoms([(e, None) for e in extra], run):
+        descs.setdefault(explore.h64(a.key()), explore.desc(a))
     dl = list(descs.values())
     total = {}
     for viol, cnt in common.pmap(_task, common.chunks(dl, max(1, len(dl) // (8 * common.NPROC) + 1))):
